@@ -178,3 +178,59 @@ Fixpoint count_consumer (sched : list dstep) : nat :=
   | DConsumer :: r => S (count_consumer r)
   | DWorkerTake :: r => count_consumer r
   end.
+
+(* ---- (d) further consumers that use the pool in raise mode.
+
+   TileCreator._query_sources (cache/tile.py): async_.imap(get_map_from_source, self.sources), pool size
+   min(#sources, MAX_MAP_ASYNC_THREADS), raise mode.  The worker of source i returns (image, coverage of source i)
+   or (None, None) for BlankImage; the consumer keeps the pairs that carry an image, in source order, and hands
+   them to merge_images; an exception leaves the loop before merge_images is reached (nothing is merged).
+   The coverage of source i is encoded by the number i. *)
+Definition MAX_MAP_ASYNC_THREADS : nat := 20.
+
+Fixpoint indexed_nonblank (i : nat) (rs : list val) : list (Z * nat) :=
+  match rs with
+  | [] => []
+  | Ok v :: r => if Z.ltb v 0%Z then indexed_nonblank (S i) r else (v, i) :: indexed_nonblank (S i) r
+  | Exc _ :: r => indexed_nonblank (S i) r
+  end.
+
+Definition query_sources (items : list val) (arrival : list nat) (split : nat) : list (Z * nat) * option Z :=
+  match imap (Nat.min (length items) MAX_MAP_ASYNC_THREADS) false items arrival split with
+  | (rs, None) => (indexed_nonblank 0 rs, None)
+  | (_, Some e) => ([], Some e)
+  end.
+
+(* S3Cache / AzureBlobCache.load_tiles: all(pool.map(self.load_tile, tiles)); store_tiles: pool.map(...).
+   map = list(imap(...)) receives every result before all() looks at the first one.  `Ok v` with v < 0 = the
+   call returned False (tile not in the bucket).  Outcome: (value of all(), number of results the caller has
+   received when the call returns, exception). *)
+Definition truthy (v : val) : bool := match v with Ok z => negb (Z.ltb z 0%Z) | Exc _ => false end.
+
+Definition bulk_io (pool_size : nat) (items : list val) (arrival : list nat) (split : nat) : bool * nat * option Z :=
+  match as_list_api true (imap pool_size false items arrival split) with
+  | (rs, None) => (forallb truthy rs, length rs, None)
+  | (rs, Some e) => (false, length rs, Some e)
+  end.
+
+Definition pairs_eqb (a b : list (Z * nat)) : bool :=
+  (fix go (x y : list (Z * nat)) : bool :=
+     match x, y with
+     | [], [] => true
+     | (u, i) :: x', (w, j) :: y' => Z.eqb u w && Nat.eqb i j && go x' y'
+     | _, _ => false
+     end) a b.
+
+(* what _render_capture_source_errors must report: the SourceErrors in layer order *)
+Fixpoint source_errs (items : list val) : list Z :=
+  match items with
+  | [] => []
+  | Exc e :: r => if Z.ltb e 1000%Z then e :: source_errs r else source_errs r
+  | _ :: r => source_errs r
+  end.
+Fixpoint count_ok (items : list val) : nat :=
+  match items with
+  | [] => O
+  | Ok _ :: r => S (count_ok r)
+  | _ :: r => count_ok r
+  end.
